@@ -150,6 +150,8 @@ type varier struct {
 	level int
 	// again: set by line() when it repeated the first option's key with the value "again" (later key wins)
 	again *string
+	// effs: set by text(): the definitions as a reader must see them, one per command line written
+	effs []rt.Def
 }
 
 // effective returns the definition the last line() call wrote: d with the options as a reader must see them.
@@ -345,6 +347,8 @@ func (v *varier) text(ds []rt.Def, malIdx int) string {
 	// a definition that repeats an earlier one verbatim is mostly written with the very same line (same
 	// separators), as a configuration source would: "add X / del X / add X" with byte-identical adds
 	seen := map[string]string{}
+	seenEff := map[string]rt.Def{}
+	v.effs = nil
 	for i := range ds {
 		if v.level >= 2 {
 			switch r.Intn(10) {
@@ -361,10 +365,12 @@ func (v *varier) text(ds []rt.Def, malIdx int) string {
 		ln, dup := seen[key]
 		if !dup || i == malIdx || r.Chance(1, 4) {
 			ln = v.line(&ds[i], i == malIdx)
+			seenEff[key] = v.effective(&ds[i])
 			if i != malIdx {
 				seen[key] = ln
 			}
 		}
+		v.effs = append(v.effs, seenEff[key])
 		b.WriteString(ln)
 		if v.level >= 2 {
 			b.WriteString(r.Pick(uniPad))
@@ -415,6 +421,9 @@ var c05Small = func() rt.Universe {
 	u := rt.Small
 	u.Dsts = append(append([]string{}, rt.Small.Dsts...),
 		"http://u:pw@a:1/", "http://u@a:1/", "HTTP://a:1/", "https://u:pw@c:3/x", "http://b:2/#top", "http://b:2/a%2Fb", "Http://u:pw@a:1/")
+	// an IPv6 literal with port as host, a punycode name, a long label; a long service name
+	u.Hosts = append(append([]string{}, rt.Small.Hosts...), "[::1]:8080", "[::1]:8080", "XN--Bcher-KVA.example", strings.Repeat("a", 63)+".Example.com")
+	u.Services = append(append([]string{}, rt.Small.Services...), "svc-"+strings.Repeat("x", 300))
 	u.Opts = append(append([][]string{}, rt.Small.Opts...),
 		[]string{"register", "alias-a"}, []string{"register", ""}, []string{"redirect", "399"}, []string{"redirect", "200"},
 		[]string{"redirect", "+302"}, []string{"redirect", "3x1"}, []string{"host", "www.foo.com"}, []string{"pxyproto", "true"},
